@@ -69,6 +69,16 @@ def run_one(s):
         tr["exc"] = r[1] if len(r) > 1 else "hang"
     else:
         tr["bits"], tr["shape_ok"] = bits_of(r[1], len(coords))
+    # the same query in the calling convention of __contains__: parameters as COLUMNS of the points, placed
+    # before the domain's own variables
+    tr["bits2"], tr["shape2_ok"], tr["exc2"] = [], True, ""
+    if names:
+        joined = par.join(pts)
+        r = watched(lambda: dom._contains(joined))
+        if r[0] != "ok":
+            tr["exc2"] = r[1] if len(r) > 1 else "hang"
+        else:
+            tr["bits2"], tr["shape2_ok"] = bits_of(r[1], len(coords))
     # boundary object
     tr["bd"] = "none"
     if s.get("boundary"):
